@@ -398,4 +398,10 @@ silent('c20-len-minus-form', 'C20', LG, "            for filepath in files[:-sel
 firing('c20-reset-no-logging-off', 'C20', DP,
        "        self.set_all_log_levels(conn, 'off')\n        self._active_connections.discard(conn)", "        self._active_connections.discard(conn)", 'reset_connection:switches logging off')
 
+# thorough-tier variants
+V.append({'id': 'c08-lock-cycle', 'prop': 'C08', 'kind': 'firing', 'tier': 'thorough', 'file': DP,
+          'old': "        self.broadcast_event(make_update(moduleobj.name, pobj))",
+          'new': "        with self._lock:\n            self.broadcast_event(make_update(moduleobj.name, pobj))",
+          'expect': 'lock-order graph is acyclic'})
+
 VARIANTS = V
